@@ -289,4 +289,39 @@ theorem classify_spec (c : Content) (hs : c.surs = []) : ∀ (o st0 dy0 apn0 : L
           | true => exact absurd (by simpa [List.all_eq_true] using hb) hall
         exact dyn_case (by simp [classify, hr, hsur, hkv, hkp, hd, hall]) (Or.inr ⟨d, hd, hall⟩)
 
+/-! ### what a successful `createCache` consists of -/
+
+theorem bind_ok {α β} {x : Except Err α} {f : α → Except Err β} {b : β}
+    (h : (x >>= f) = .ok b) : ∃ a, x = .ok a ∧ f a = .ok b := by
+  cases x with
+  | error e => simp [bind, Except.bind] at h
+  | ok a => exact ⟨a, rfl, by simpa [bind, Except.bind] using h⟩
+
+theorem createCache_ok {c : Content} {cache : Cache} (h : createCache c = .ok cache) :
+    ∃ (order : List Name) (dependent : Env) (st dy apn : List Name)
+      (stoich : List (Name × List (Name × Rat))) (dst : List (Name × List (Name × Fn)))
+      (init extra : List (Name × Rat)),
+      sortDeps c.available c.deps = .ok order ∧
+      evalInOrder c.toSort order (baseEnv (plainOf c.pars) (plainOf c.vars) c.data 0) = .ok dependent ∧
+      classify c order [] [] (omKeys c.pars) = (st, dy, apn) ∧
+      addRxns apn dependent c.allStoich ([], []) = .ok (stoich, dst) ∧
+      (omKeys c.vars).mapM (fun k => (do pure (k, ← dependent.get k) : Except Err (Name × Rat))) = .ok init ∧
+      (st.filter fun k => !(omKeys c.vars).contains k).mapM
+        (fun k => (do pure (k, ← dependent.get k) : Except Err (Name × Rat))) = .ok extra ∧
+      cache = { order, varNames := omKeys c.vars, dynOrder := dy, basePars := plainOf c.pars,
+                allPars := omUnion (plainOf c.pars) extra, stoich, dynStoich := dst, init } := by
+  unfold createCache at h
+  obtain ⟨order, h1, h⟩ := bind_ok h
+  obtain ⟨dependent, h2, h⟩ := bind_ok h
+  generalize hcl : classify c order [] [] (omKeys c.pars) = cl at h
+  obtain ⟨st, dy, apn⟩ := cl
+  simp only at h
+  obtain ⟨sd, h3, h⟩ := bind_ok h
+  obtain ⟨stoich, dst⟩ := sd
+  simp only at h
+  obtain ⟨init, h4, h⟩ := bind_ok h
+  obtain ⟨extra, h5, h⟩ := bind_ok h
+  simp only [pure, Except.pure, Except.ok.injEq] at h
+  exact ⟨order, dependent, st, dy, apn, stoich, dst, init, extra, h1, h2, hcl, h3, h4, h5, h.symm⟩
+
 end Mxl
